@@ -42,6 +42,14 @@ CHECKS = {
    "exhaustive enumeration of (line length, column, content class, file layout) on the real Reporter, independent fragment-locating oracle",
    "All line lengths 0..600 x all columns x 5 content classes x 5 file layouts x neighbour-length rotations, plus degraded inputs, are pushed through reporting.Reporter.ReportViolation with a synthetic Pass; a position-coded line lets the oracle locate the excerpt fragment and the caret cell without knowing the truncation arithmetic.",
    "only width-1 runes are generated; columns inside a rune and cuts splitting a rune are recorded, not judged", "2/C19"),
+ "C07": ("model_checking", "E1 histmc",
+   "differential exploration: every (diagnostic, comment placement, code list) state on the real analyzers vs. base minus reference scope",
+   "For every diagnostic of covering base programs (all 16 codes, anchors at and inside statements, function/nested/package level, two files, two packages), every placement of one @ignore comment (file level, before declaration, before statement, before enclosing statement, trailing on the line / previous / next line, before the sibling, other file) and 17 code lists, the variant is analysed by the real analyzers and must equal the base minus the diagnostics inside the reference scope that match the list; TONL01/PKGO01 move to the next unsuppressed use. The scope reference is computed from go/parser, independently of gogreement.",
+   "base verdicts judged elsewhere; reference scopes follow the property statement", "2/C07"),
+ "C17": ("exploration", "E4 drvmc + E1",
+   "exhaustive over every diagnostic of covering programs on the real binary: format rules, append-own-code @ignore rerun, exit status grid",
+   "Every diagnostic emitted by the real binary (both drivers) on covering programs is checked against the format rules and re-run with `// @ignore <code shown>` appended to its line; exit status of both text-mode drivers is compared with the number of printed diagnostics on programs with 0/1/many/suppressed diagnostics; the same format rules are applied to every diagnostic of an in-process sweep.",
+   "documentation pages derived from the book's file names; output parsing by the harness", "2/C17"),
 }
 
 NA_REASON = "check not built yet in this round (planned, see DESIGN.md section 2)"
@@ -74,11 +82,11 @@ def main():
             "add_only": True,
         },
         "engines": [
-            {"name": "E1 histmc", "path": "/verif/mc/internal/e1", "serves_properties": ["C01", "C02", "C03", "C04", "C12", "C13"],
+            {"name": "E1 histmc", "path": "/verif/mc/internal/e1", "serves_properties": ["C01", "C02", "C03", "C04", "C07", "C12", "C13", "C17"],
              "kind_free_text": "explicit-state search over declaration/statement histories; successor = history + one declaration, re-rendered and re-analysed by the real analyzers (checker.Analyze)"},
             {"name": "E2 seqmc", "path": "/verif/mc/internal/checks", "serves_properties": ["C16", "C19", "C06"],
              "kind_free_text": "exhaustive enumeration of inputs / operation sequences through the public API against a boring reference model"},
-            {"name": "E4 drvmc", "path": "/verif/mc/internal/drv", "serves_properties": ["C06"],
+            {"name": "E4 drvmc", "path": "/verif/mc/internal/drv", "serves_properties": ["C06", "C17"],
              "kind_free_text": "grid runner over the real executables (gogreement, go vet -vettool) on programs materialised in a tmpfs scratch directory; rebuilt from the working tree on every run"},
         ],
         "checks": checks,
